@@ -151,6 +151,20 @@ class Lifecycle:
         a = n.ast
         self._cur = n
         normal = lab[0] in NORMAL_KINDS
+        # a name that is bound again (assignment, loop target, with-target) no longer stands for what it was handed in for: `for task_id in
+        # ...` inside _task_ending makes the `task_id` passed to the callback afterwards some other id
+        if normal and env and n.env is None:
+            tg: list = []
+            if n.op in ("assign", "aug") and isinstance(a, (ast.Assign, ast.AnnAssign, ast.AugAssign)):
+                tg = list(a.targets) if isinstance(a, ast.Assign) else [a.target]
+                val = getattr(a, "value", None)
+                if isinstance(a, ast.Assign) and len(tg) == 1 and isinstance(tg[0], ast.Name) and isinstance(val, ast.Name) and self.role(env, val) == self.role(env, tg[0]):
+                    tg = []  # (`x = x`-style re-binding to the same thing)
+            elif n.op == "iter" and lab[0] == "T" and isinstance(a, (ast.For, ast.AsyncFor)):
+                tg = [a.target]
+            bound = {x.id for t in tg for x in ast.walk(t) if isinstance(x, ast.Name) and isinstance(x.ctx, ast.Store)}
+            if bound and any(k in bound for k, _r in env if k != "<has>"):
+                env = frozenset((k, r) for k, r in env if k == "<has>" or k not in bound)
         # --- registry moves keyed by the task id
         if n.op == "call" and isinstance(a, ast.Call) and isinstance(a.func, ast.Attribute) and a.func.attr == "pop" and a.args \
                 and self.role_at(n, env, a.args[0]) == "ID":
